@@ -1,4 +1,5 @@
 import PydjinniModel.Gen.Yaml
+import PydjinniModel.Props.C13Export
 /-!
 # C13 — exported type YAML re-imports to the same types
 
